@@ -402,6 +402,16 @@ pub fn c11_shipped<M: Model>(name: &str, rep: &mut Report, rng: &mut Rng, iters:
     for _ in 0..iters {
         coords.push(M::F::rand(rng));
     }
+    if M::TE {
+        // y with a - d*y^2 = 0: the recovery formula x^2 = (1 - y^2)/(a - d*y^2) has a zero denominator there; such y
+        // exist exactly when a/d is a square, i.e. on curves with an incomplete addition law (Bandersnatch)
+        let (a, d) = M::coeffs();
+        if let Some(y0) = d.inverse().and_then(|di| (a * di).sqrt()) {
+            rep.class("recover: twisted Edwards y with a - d*y^2 = 0 (zero denominator)");
+            coords.push(y0);
+            coords.push(-y0);
+        }
+    }
     for (i, c) in coords.iter().enumerate() {
         if i == 0 {
             rep.sample(&format!("c11/{name}"), || json!({"curve": name, "coordinate": format!("{c}")}));
